@@ -104,6 +104,7 @@ class QScal:
     qv_scalar = True
     qv_value = True
     __slots__ = ("c",)
+    quotient_hook = None     # optional: right division as a named quotient y with the defining equation y * b == a (b != 0)
 
     def __init__(self, w, x=Fraction(0), y=Fraction(0), z=Fraction(0)):
         self.c = (w, x, y, z)
@@ -165,6 +166,8 @@ class QScal:
         if is_reallike(o):
             return QScal(*[a / o for a in self.c])
         if isinstance(o, QScal):
+            if QScal.quotient_hook is not None:
+                return QScal.quotient_hook(self, o)
             return self * o.inverse()      # numpy-quaternion: a / b = a * b^-1
         return NotImplemented
 
